@@ -22,7 +22,7 @@ THEOREMS = [
     "C09.generated_branch_segments", "C09.generated_tree_segments",
     # the remaining object helpers (Gen/AlgoHelpers.lean; proofs in Refine/Helpers.lean, T41)
     "C09.generated_get_node", "C09.generated_path_iter", "C09.generated_iter_live", "C09.generated_branch_detach",
-    "C09.generated_branch_detach_agrees", "C09.generated_compartment_detach",
+    "C09.generated_branch_detach_agrees", "C09.generated_compartment_detach", "C09.generated_tree_iter", "C09.generated_tree_iter_live",
 ]
 TRUSTED = ["imperative translator harness/translate_algo.py + the hooks and glue listed at the top of harness/algo_specs/70_views.py + Model/Py.lean / PyViews.lean "
            "(slice.indices, range, fancy indexing), cross-checked by running every generated definition on the c09.history histories (gviews / gslice); "
@@ -147,6 +147,18 @@ def helper_ops(vw, j, objs, salt):
     for c in ("id", "pid", "type", "x"):
         out.append((f"bdt:{j}:{c}", attempt(lambda: Branch(vw.attach, vw.idx).detach().attach.get_ndata(getattr(nm, c)))))
     if isinstance(own, Tree) and oi is not None:
+        out.append((f"tit:{oi}:type", attempt(lambda: [nd[nm.type] for nd in own])))
+        ti = salt % (own.number_of_nodes() + 1) - (salt % 2) * own.number_of_nodes()       # in range, negative, or one past the end
+
+        def tlive():
+            hs = list(iter(own))
+            old = int(own[ti][nm.x])
+            own[ti][nm.x] = 55
+            try:
+                return [h[nm.x] for h in hs]
+            finally:
+                own[ti][nm.x] = old
+        out.append((f"titw:{oi}:{ti}:x:55", attempt(tlive)))
         jj = salt % max(1, own.number_of_nodes())
         for c in ("id", "pid", "z"):
             out.append((f"cdt:{oi}:{jj}:{c}", attempt(lambda: own.get_compartments()[jj].detach().attach.get_ndata(getattr(nm, c)))))
